@@ -551,7 +551,7 @@ def replay(ctx, payload):
     hit = [f for f in ctx.failures if f['key'] == payload.get('key')] or ctx.failures
     if hit:
         print(f"replay: {payload.get('key')} still fails: {hit[0]['what']}")
-        print(f"VIOLATION property={ctx.pid} replay={_replay_path()}")
+        print(f"VIOLATION property={ctx.pid} replay={getattr(ctx, 'replay_path', None) or _replay_path()}")
         return 1
     print(f"replay: {payload.get('key')} no longer fails ({ctx.probe_evals} evaluations)")
     return 0
